@@ -233,6 +233,9 @@ func Supervise(spec Spec, tier string) int {
 		if v.Confirmed < 5 {
 			flaky++
 			fmt.Printf("HARNESS-FLAKY: property=%s clause=%s confirmed %d/5 (not reported as violation)\n", spec.ID, v.Clause, v.Confirmed)
+			if os.Getenv("VERIF_DUMP") != "" {
+				fmt.Printf("  case=%s\n  %s\n", v.Desc, firstLines(v.Detail, 40))
+			}
 			continue
 		}
 		matched := false
